@@ -93,6 +93,10 @@ def run(ctx):
     st = explore(bw, ["ans", "noise"], 0, sink, stats=st, name="budget-windows/b0")
     # (d) deterministic answer scripts (ties, success right before termination)
     adv = [job(D, g, "det", c, seeds[0], base=b) for D in Ds[:2] for g in ("lin", "log") for c in (None, "ball") for b in ("F", "E3")]
+    # success-rich policies: many successful polls while the mesh is already at its maximum (overflow warning path), also with a float-valued threshold
+    rich = [job(D, g, "det", None, seeds[0], base=b, opts=o) for D in (1, 2, 3) for g in ("lin", "unb") for b in ("S", "S2", "S3", "S4")
+            for o in ({}, {"mesh_overflow_warning": 1.0}, {"mesh_overflow_warning": 2})]
+    st = explore(rich, ["ans"], 0, sink, stats=st, name="det/success-rich")
     st = explore(adv, ["ans"], 1 if q else 2, sink, stats=st, name="det/ans-b", pos_ok=(lambda k, p, r: p < 12) if q else (lambda k, p, r: p < 20),
                  cap=None if q else st["executions"] + 40000)
     # (e) noise scripts
